@@ -42,6 +42,16 @@ def queries(tier):
     WENV = ENV + ["env_aio.c", "env_msg.c"]
     qs.append(Query("allocfail-ws-read-finish-msg", "c16/wsframe.c", tus=["core/list.c"], env=WENV, defs={"FINISH": 1, "NF": 2, "SERVER": 1, "FAILMSG": 1},
                     unwind=30, timeout=300, params={"entry_point": "ws_read_finish_msg", "failing_allocation": "the message for the reassembled frames"}))
+    # inproc hand-off of a shared message: the private copy for the receiver cannot be allocated
+    from props import C01
+    for q in C01.queries(tier):
+        if q.name.startswith("inproc-") and "SF" in q.name:
+            q.group = "~" + q.group
+            qs.append(q)
+    # id map: the grow of the table fails (nni_id_set reports ENOMEM, the map stays a working finite map afterwards)
+    for n0 in (5,):
+        qs.append(Query("allocfail-idmap-grow-then-use", "c20/idmap_grow.c", tus=["core/list.c"], env=ENV + ["env_aio.c"], defs={}, unwind=40, timeout=600, mem_gb=8,
+                        params={"entry_point": "nni_id_set at the grow threshold", "failing_allocation": "the larger table", "then": "further sets up to 9 entries, get of any key"}))
     # HTTP head parser: the connection object's setters fail with NNG_ENOMEM (the parser itself allocates nothing)
     HREQ = ["GET /a HTTP/1.1\r\nK: v\r\n\r\n", None, None, "A /b HTTP/2\r\nK: v\r\nL: w\r\n\r\n"]
     for nm, ti, extra in (("req-header1", 0, {"FAILHDR": 1}), ("req-header1of2", 3, {"FAILHDR": 1}), ("req-header2of2", 3, {"FAILHDR": 2}), ("req-uri", 0, {"FAILURI": 1}),
